@@ -909,3 +909,1346 @@ Lemma await_task_error : forall n b k env scope trys cls below st nx x nx' tr,
   run_body n (CAwait (ATask b) k) env scope trys cls below st nx
   = pre (TFrame nx :: tr) (run_body n (CThrow x) env scope trys cls below st nx').
 Proof. intros. cbn [run_body]. rewrite H. reflexivity. Qed.
+
+(* ---------------------------------------------------------------------------------------------- *)
+(* Denotational reading: what a task completes with, as a function of what its leaves complete with.
+   The equations of [eval] ARE the statement of C10 about results: co_await of a value continues
+   with it, of an error behaves as a throw at that point (caught by an enclosing try or escaping as the
+   task's error), of done ends the task (and every awaiting task) with done; a task awaited as a sender
+   completes with its co_return value, its escaped exception, or done; a plain awaitable behaves as the
+   sender (round trip).  Adequacy (below): for every script and stop request, the outcome the root
+   receiver gets is [eval body] for any oracle consistent with the leaf completions of the run. *)
+Section Denot.
+Variable rho : nat -> outcome.
+
+Fixpoint eval (e : coexpr) (env : list Z) {struct e} : outcome :=
+  match e with
+  | CRet a => OVal (arg_val a env)
+  | CThrow x => OErr x
+  | CAwait s k =>
+      match (match s with
+             | AJust a => OVal (arg_val a env)
+             | AAwJust a => OVal (arg_val a env)
+             | AErr x => OErr x
+             | AAwErr x => OErr x
+             | ADone => ODone
+             | ALeaf _ id => rho id
+             | ATask b => eval b env
+             end) with
+      | OVal v => eval k (v :: env)
+      | o => o
+      end
+  | CLocal _ k => eval k env
+  | CAtExit _ k => eval k env
+  | CTry b h => match eval b env with OErr x => eval h (x :: env) | o => o end
+  end.
+
+Fixpoint catch (o : outcome) (trys : list tryent) {struct trys} : outcome :=
+  match trys with
+  | [] => o
+  | (h, henv, _) :: more => match o with OErr x => catch (eval h (x :: henv)) more | _ => o end
+  end.
+
+Definition fres (p : frame) (o : outcome) : outcome :=
+  match o with
+  | OVal v => catch (eval (f_k p) (v :: f_env p)) (f_trys p)
+  | OErr x => catch (OErr x) (f_trys p)
+  | ODone => ODone
+  end.
+
+Fixpoint sres (stack : list frame) (o : outcome) : outcome :=
+  match stack with [] => o | p :: rest => sres rest (fres p o) end.
+
+Definition consistent (tr : list tev) : Prop := forall id o, In (TLeafDone id o) tr -> rho id = o.
+Definition noroot (tr : list tev) : Prop := forall o, ~ In (TRoot o) tr.
+
+Definition gden (g : gcfg) (tr : list tev) (T : outcome) : Prop :=
+  (forall o, In (TRoot o) tr -> o = T) /\
+  match g with
+  | GSusp (SLeaf id _ _) stack => sres stack (rho id) = T
+  | GSusp (SExit eo _ _) (_ :: rest) => sres rest eo = T
+  | _ => True
+  end.
+
+Lemma catch_val : forall trys v, catch (OVal v) trys = OVal v.
+Proof. destruct trys as [|[[h henv] seg] more]; reflexivity. Qed.
+Lemma catch_done : forall trys, catch ODone trys = ODone.
+Proof. destruct trys as [|[[h henv] seg] more]; reflexivity. Qed.
+Lemma sres_done : forall stack, sres stack ODone = ODone.
+Proof. induction stack; simpl; auto. Qed.
+
+Lemma consistent_app : forall a b, consistent (a ++ b) -> consistent a /\ consistent b.
+Proof. unfold consistent; intros; split; intros; apply H; apply in_or_app; auto. Qed.
+Lemma noroot_app : forall a b, noroot a -> noroot b -> noroot (a ++ b).
+Proof. unfold noroot; intros a b Ha Hb o Hin. apply in_app_or in Hin. destruct Hin; [eapply Ha|eapply Hb]; eauto. Qed.
+Lemma noroot_dtors : forall n l, noroot (dtors n l).
+Proof. unfold noroot, dtors; intros n l o Hin. apply in_map_iff in Hin. destruct Hin as (? & ? & _). discriminate. Qed.
+
+Lemma gden_pre : forall g tr0 tr T, noroot tr0 -> gden g tr T -> gden g (tr0 ++ tr) T.
+Proof.
+  unfold gden; intros. destruct H0. split; auto.
+  intros o Hin. apply in_app_or in Hin. destruct Hin; [exfalso; eapply H; eauto|auto].
+Qed.
+
+Lemma run_cleanups_noroot : forall cls n, noroot (fst (run_cleanups n cls)).
+Proof.
+  induction cls; simpl; intros.
+  - intros o [].
+  - destruct (c_leaf a).
+    + intros o [H|[H|[]]]; discriminate.
+    + specialize (IHcls n). destruct (run_cleanups n cls) as [tr r]. simpl in *.
+      intros o [H|[H|H]]; try discriminate. eapply IHcls; eauto.
+Qed.
+
+Definition rtrace (r : res) : list tev :=
+  match r with RVal _ _ tr => tr | RErr _ _ tr => tr | RThrowOut _ _ _ tr => tr | RGlob _ _ tr => tr end.
+Definition nr (r : res) : Prop := match r with RGlob _ _ _ => True | _ => noroot (rtrace r) end.
+
+Lemma nr_pre : forall tr0 r, noroot tr0 -> nr r -> nr (pre tr0 r).
+Proof. intros. destruct r; simpl in *; auto; apply noroot_app; auto. Qed.
+
+Lemma finish_nr : forall n o cls below nx, nr (finish n o cls below nx).
+Proof.
+  intros. unfold finish. pose proof (run_cleanups_noroot cls n) as H.
+  destruct (run_cleanups n cls) as [tr [[c p]|]]; simpl in *; auto.
+  destruct o; simpl; auto; apply noroot_app; auto; intros o [H0|[]]; discriminate.
+Qed.
+
+Lemma close_body_nr : forall m below r, nr r -> nr (close_body m below r).
+Proof. intros. destruct r; simpl in *; auto. apply nr_pre; auto. apply finish_nr. Qed.
+
+Lemma run_body_nr : forall N e, csize e <= N ->
+  forall n env scope trys cls below st nx, nr (run_body n e env scope trys cls below st nx).
+Proof.
+  induction N; intros e Hsz; [destruct e; simpl in Hsz; lia|].
+  intros. destruct e; simpl in Hsz.
+  - simpl. apply nr_pre; [apply noroot_dtors|apply finish_nr].
+  - simpl. apply noroot_dtors.
+  - destruct s; simpl in Hsz.
+    + simpl. rewrite pre_nil. apply IHN; lia.
+    + simpl. apply noroot_dtors.
+    + cbn [run_body]. destruct (unwind_done [] (mkframe n scope trys cls env e :: below)). simpl. exact I.
+    + simpl. rewrite pre_nil. apply IHN; lia.
+    + simpl. apply noroot_dtors.
+    + destruct kd, st; cbn [run_body start_leaf]; try exact I.
+      destruct (unwind_done [] (mkframe n scope trys cls env e :: below)). simpl. exact I.
+    + cbn [run_body].
+      pose proof (close_body_nr nx (mkframe n scope trys cls env e :: below) _
+                    (IHN body ltac:(lia) nx env [] [] [] (mkframe n scope trys cls env e :: below) st (S nx))) as HC.
+      destruct (close_body nx (mkframe n scope trys cls env e :: below)
+                  (run_body nx body env [] [] [] (mkframe n scope trys cls env e :: below) st (S nx)))
+        as [v nx' tr|x nx' tr|x c nx' tr|g nx' tr]; simpl in HC.
+      * apply nr_pre; [|apply IHN; lia].
+        intros o [H|H]; [discriminate|eapply HC; eauto].
+      * apply (noroot_app (TFrame nx :: tr) (dtors n scope)); [|apply noroot_dtors].
+        intros o [H|H]; [discriminate|eapply HC; eauto].
+      * exact I.
+      * exact I.
+  - simpl. apply nr_pre; [intros o [H|[]]; discriminate|apply IHN; lia].
+  - simpl. apply nr_pre; [intros o [H|[]]; discriminate|apply IHN; lia].
+  - cbn [run_body].
+    pose proof (IHN e1 ltac:(lia) n env [] ((e2, env, scope) :: trys) cls below st nx) as HB.
+    destruct (run_body n e1 env [] ((e2, env, scope) :: trys) cls below st nx); auto.
+    simpl in HB. apply nr_pre; auto. apply IHN; lia.
+Qed.
+
+Definition sem (ev : outcome) (trys : list tryent) (below : list frame) (r : res) : Prop :=
+  consistent (rtrace r) ->
+  match r with
+  | RVal v _ _ => ev = OVal v
+  | RErr _ _ _ => False
+  | RThrowOut x _ _ _ => ev = OErr x
+  | RGlob g _ tr => gden g tr (sres below (catch ev trys))
+  end.
+
+(* result of a whole frame *)
+Definition fsem (ev : outcome) (below : list frame) (r : res) : Prop :=
+  consistent (rtrace r) ->
+  match r with
+  | RVal v _ _ => ev = OVal v
+  | RErr x _ _ => ev = OErr x
+  | RThrowOut _ _ _ _ => False
+  | RGlob g _ tr => gden g tr (sres below ev)
+  end.
+
+Lemma rtrace_pre : forall tr0 r, rtrace (pre tr0 r) = tr0 ++ rtrace r.
+Proof. destruct r; reflexivity. Qed.
+
+Lemma sem_pre : forall ev trys below tr0 r, noroot tr0 ->
+  (consistent tr0 -> sem ev trys below r) -> sem ev trys below (pre tr0 r).
+Proof.
+  unfold sem; intros. rewrite rtrace_pre in H1. apply consistent_app in H1. destruct H1 as [H1 H2].
+  specialize (H0 H1 H2). destruct r; simpl in *; auto. apply gden_pre; auto.
+Qed.
+
+Lemma fsem_pre : forall ev below tr0 r, noroot tr0 ->
+  (consistent tr0 -> fsem ev below r) -> fsem ev below (pre tr0 r).
+Proof.
+  unfold fsem; intros. rewrite rtrace_pre in H1. apply consistent_app in H1. destruct H1 as [H1 H2].
+  specialize (H0 H1 H2). destruct r; simpl in *; auto. apply gden_pre; auto.
+Qed.
+
+Lemma finish_fsem : forall n o cls below nx, (match o with ODone => False | _ => True end) ->
+  fsem o below (finish n o cls below nx).
+Proof.
+  intros. unfold fsem, finish. pose proof (run_cleanups_noroot cls n) as HN.
+  destruct (run_cleanups n cls) as [tr [[c p]|]]; simpl in *.
+  - intros _. split; auto. intros o' Hin. exfalso. eapply HN; eauto.
+  - destruct o; try contradiction; simpl; auto.
+Qed.
+
+Lemma unwind_done_den : forall stack zs, gden (fst (unwind_done zs stack)) (snd (unwind_done zs stack)) ODone.
+Proof.
+  induction stack as [|f rest IH]; intros.
+  - simpl. split; auto. intros o [H|[]]. inversion H; reflexivity.
+  - rewrite unwind_done_cons. pose proof (run_cleanups_noroot (f_cleanups f) (f_n f)) as HN.
+    destruct (run_cleanups (f_n f) (f_cleanups f)) as [tr [[c p]|]]; simpl in *.
+    + split; [intros o Hin; exfalso; eapply HN; eauto|apply sres_done].
+    + specialize (IH (zs ++ [set_cleanups f []])).
+      destruct (unwind_done (zs ++ [set_cleanups f []]) rest) as [g tr']. simpl in *.
+      apply gden_pre; auto.
+Qed.
+
+Lemma close_body_fsem : forall ev m below r, sem ev [] below r -> nr r -> fsem ev below (close_body m below r).
+Proof.
+  intros. destruct r; simpl close_body.
+  - exact H.
+  - unfold fsem, sem in *. simpl in *. intros Hc. exfalso. auto.
+  - apply fsem_pre; [exact H0|]. intros Hc. unfold sem in H. simpl in H. rewrite (H Hc).
+    apply finish_fsem. exact I.
+  - exact H.
+Qed.
+
+Lemma fres_await : forall n scope trys cls env k o,
+  fres (mkframe n scope trys cls env k) o = catch (match o with OVal v => eval k (v :: env) | OErr x => OErr x | ODone => ODone end) trys.
+Proof. intros. destruct o; simpl; auto. rewrite catch_done. reflexivity. Qed.
+
+Lemma catch_try : forall b h env scope trys,
+  catch (eval b env) ((h, env, scope) :: trys) = catch (eval (CTry b h) env) trys.
+Proof. intros. simpl. destruct (eval b env); auto; [rewrite catch_val|rewrite catch_done]; reflexivity. Qed.
+
+Lemma fsem_sem_val : forall v trys below r, fsem (OVal v) below r -> sem (OVal v) trys below r.
+Proof.
+  unfold fsem, sem; intros. specialize (H H0). destruct r; auto; try discriminate; try contradiction.
+  rewrite catch_val. exact H.
+Qed.
+
+Lemma noroot_one : forall e, (forall o, e <> TRoot o) -> noroot [e].
+Proof. intros e H o [Hin|[]]. eapply H; eauto. Qed.
+
+Lemma run_body_sem : forall N e, csize e <= N ->
+  forall n env scope trys cls below st nx,
+  sem (eval e env) trys below (run_body n e env scope trys cls below st nx).
+Proof.
+  induction N; intros e Hsz; [destruct e; simpl in Hsz; lia|].
+  intros. destruct e; simpl in Hsz.
+  - (* CRet *)
+    simpl. apply sem_pre; [apply noroot_dtors|]. intros _. apply fsem_sem_val. apply finish_fsem. exact I.
+  - (* CThrow *) unfold sem; simpl; auto.
+  - destruct s; simpl in Hsz.
+    + simpl. rewrite pre_nil. apply IHN; lia.
+    + unfold sem; simpl; auto.
+    + (* ADone *)
+      cbn [run_body]. pose proof (unwind_done_den (mkframe n scope trys cls env e :: below) []) as HU.
+      destruct (unwind_done [] (mkframe n scope trys cls env e :: below)) as [g tr'].
+      unfold sem. simpl. intros _. rewrite catch_done, sres_done. exact HU.
+    + simpl. rewrite pre_nil. apply IHN; lia.
+    + unfold sem; simpl; auto.
+    + (* ALeaf *)
+      assert (HS : forall seen tr, noroot tr ->
+                gden (GSusp (SLeaf id kd seen) (mkframe n scope trys cls env e :: below)) tr
+                     (sres below (catch (eval (CAwait (ALeaf kd id) e) env) trys))).
+      { intros. split; [intros o Hin; exfalso; eapply H; eauto|].
+        cbn [sres]. rewrite fres_await. cbn [eval]. reflexivity. }
+      destruct kd, st; cbn [run_body start_leaf]; unfold sem; cbn [rtrace]; intros Hc;
+        try (apply HS; intros o Hin; simpl in Hin; intuition discriminate).
+      (* reactive leaf started after the stop request: done at once *)
+      pose proof (unwind_done_den (mkframe n scope trys cls env e :: below) []) as HU.
+      destruct (unwind_done [] (mkframe n scope trys cls env e :: below)) as [g tr']. simpl in HU.
+      assert (Hr : rho id = ODone).
+      { apply Hc. simpl. auto. }
+      cbn [eval]. rewrite Hr. rewrite catch_done, sres_done.
+      apply gden_pre; auto. intros o Hin; simpl in Hin; intuition discriminate.
+    + (* ATask *)
+      cbn [run_body].
+      set (me := mkframe n scope trys cls env e).
+      pose proof (close_body_fsem (eval body env) nx (me :: below) _
+                    (IHN body ltac:(lia) nx env [] [] [] (me :: below) st (S nx))
+                    (run_body_nr _ body (le_n _) nx env [] [] [] (me :: below) st (S nx))) as HC.
+      pose proof (close_body_nr nx (me :: below) _ (run_body_nr _ body (le_n _) nx env [] [] [] (me :: below) st (S nx))) as HN.
+      destruct (close_body nx (me :: below) (run_body nx body env [] [] [] (me :: below) st (S nx)))
+        as [v nx' tr|x nx' tr|x c nx' tr|g nx' tr]; unfold fsem in HC; simpl in HC, HN.
+      * apply sem_pre.
+        -- intros o [H|H]; [discriminate|eapply HN; eauto].
+        -- intros Hc. assert (Hb : eval body env = OVal v).
+           { apply HC. intros i o Hin. apply Hc. simpl; auto. }
+           cbn [eval]. rewrite Hb. apply IHN; lia.
+      * unfold sem. cbn [rtrace]. intros Hc. cbn [eval].
+        rewrite HC; [reflexivity|]. intros i o Hin. apply Hc. apply in_or_app. left. simpl; auto.
+      * unfold sem. cbn [rtrace]. intros Hc. exfalso. apply HC. intros i o Hin. apply Hc. simpl; auto.
+      * unfold sem. cbn [rtrace]. intros Hc.
+        assert (HG : gden g tr (sres (me :: below) (eval body env))).
+        { apply HC. intros i o Hin. apply Hc. simpl; auto. }
+        cbn [sres] in HG. unfold me in HG. rewrite fres_await in HG. cbn [eval].
+        change (TFrame nx :: tr) with ([TFrame nx] ++ tr). apply gden_pre; [apply noroot_one; discriminate|].
+        exact HG.
+  - simpl. apply sem_pre; [apply noroot_one; discriminate|]. intros _. apply IHN; lia.
+  - simpl. apply sem_pre; [apply noroot_one; discriminate|]. intros _. apply IHN; lia.
+  - (* CTry *)
+    cbn [run_body].
+    pose proof (IHN e1 ltac:(lia) n env [] ((e2, env, scope) :: trys) cls below st nx) as HB.
+    pose proof (run_body_nr _ e1 (le_n _) n env [] ((e2, env, scope) :: trys) cls below st nx) as HN.
+    destruct (run_body n e1 env [] ((e2, env, scope) :: trys) cls below st nx) as [v nx' tr|x nx' tr|x c nx' tr|g nx' tr];
+      unfold sem in HB; simpl in HB, HN.
+    + unfold sem; simpl. intros Hc. rewrite (HB Hc). reflexivity.
+    + unfold sem; simpl. exact HB.
+    + apply sem_pre; [exact HN|]. intros Hc. cbn [eval]. rewrite (HB Hc). apply IHN; lia.
+    + unfold sem; cbn [rtrace]. intros Hc. rewrite <- (catch_try e1 e2 env scope trys). exact (HB Hc).
+Qed.
+
+Lemma catch_loop_nr : forall trys n x cls below st nx, nr (catch_loop n x trys cls below st nx).
+Proof.
+  induction trys as [|[[h henv] seg] more IH]; intros; cbn [catch_loop].
+  - apply finish_nr.
+  - pose proof (run_body_nr _ h (le_n _) n (x :: henv) seg more cls below st nx) as HN.
+    destruct (run_body n h (x :: henv) seg more cls below st nx); auto.
+    simpl in HN. apply nr_pre; auto.
+Qed.
+
+Lemma catch_loop_fsem : forall trys n x cls below st nx,
+  fsem (catch (OErr x) trys) below (catch_loop n x trys cls below st nx).
+Proof.
+  induction trys as [|[[h henv] seg] more IH]; intros; cbn [catch_loop catch].
+  - apply finish_fsem. exact I.
+  - pose proof (run_body_sem _ h (le_n _) n (x :: henv) seg more cls below st nx) as HB.
+    pose proof (run_body_nr _ h (le_n _) n (x :: henv) seg more cls below st nx) as HN.
+    destruct (run_body n h (x :: henv) seg more cls below st nx) as [v nx' tr|x' nx' tr|x' c nx' tr|g nx' tr];
+      unfold sem in HB; simpl in HB, HN.
+    + unfold fsem; simpl. intros Hc. rewrite (HB Hc). apply catch_val.
+    + unfold fsem; simpl. intros Hc. exfalso. auto.
+    + apply fsem_pre; [exact HN|]. intros Hc. rewrite (HB Hc). apply IH.
+    + unfold fsem; simpl. exact HB.
+Qed.
+
+Lemma catch_res_nr : forall n trys below st r, nr r -> nr (catch_res n trys below st r).
+Proof. intros. destruct r; simpl in *; auto. apply nr_pre; auto. apply catch_loop_nr. Qed.
+
+Lemma catch_res_fsem : forall ev n trys below st r,
+  sem ev trys below r -> nr r -> fsem (catch ev trys) below (catch_res n trys below st r).
+Proof.
+  intros. destruct r; simpl catch_res; unfold sem in H; simpl in H.
+  - unfold fsem; simpl. intros Hc. rewrite (H Hc). apply catch_val.
+  - unfold fsem; simpl. intros Hc. exfalso; auto.
+  - apply fsem_pre; [exact H0|]. intros Hc. rewrite (H Hc). apply catch_loop_fsem.
+  - unfold fsem; simpl. exact H.
+Qed.
+
+Lemma gden_combine : forall g tr1 tr2 T,
+  (forall o, In (TRoot o) tr1 -> o = T) -> gden g tr2 T -> gden g (tr1 ++ tr2) T.
+Proof.
+  unfold gden; intros. destruct H0. split; auto.
+  intros o Hin. apply in_app_or in Hin. destruct Hin; auto.
+Qed.
+
+Lemma resume_sem : forall stack o st nx,
+  let '(g, nx', tr) := resume stack o st nx in consistent tr -> gden g tr (sres stack o).
+Proof.
+  induction stack as [|p rest IH]; intros.
+  - destruct o; simpl; intros _; (split; [intros o' [H|[]]; inversion H; reflexivity|exact I]).
+  - cbn [resume sres].
+    set (r := match o with
+              | OVal v => run_body (f_n p) (f_k p) (v :: f_env p) (f_scope p) (f_trys p) (f_cleanups p) rest st nx
+              | OErr x => RThrowOut x (f_cleanups p) nx (dtors (f_n p) (f_scope p))
+              | ODone => let (g, tr) := unwind_done [] (p :: rest) in RGlob g nx tr
+              end).
+    assert (HF : fsem (fres p o) rest (catch_res (f_n p) (f_trys p) rest st r) /\ nr (catch_res (f_n p) (f_trys p) rest st r)).
+    { subst r. destruct o; cbn [fres].
+      - split; [apply catch_res_fsem; [apply (run_body_sem _ _ (le_n _))|apply (run_body_nr _ _ (le_n _))]
+               |apply catch_res_nr; apply (run_body_nr _ _ (le_n _))].
+      - split; [apply catch_res_fsem; [unfold sem; simpl; auto|apply noroot_dtors]
+               |apply catch_res_nr; apply noroot_dtors].
+      - pose proof (unwind_done_den (p :: rest) []) as HU.
+        destruct (unwind_done [] (p :: rest)) as [g tr]. simpl in HU. simpl catch_res.
+        split; [|exact I]. unfold fsem; simpl. intros _. rewrite sres_done. exact HU. }
+    destruct HF as [HF HN].
+    destruct (catch_res (f_n p) (f_trys p) rest st r) as [v nx' tr|x nx' tr|x c nx' tr|g nx' tr];
+      unfold fsem in HF; simpl in HF, HN.
+    + specialize (IH (OVal v) st nx'). destruct (resume rest (OVal v) st nx') as [[g nx''] tr'].
+      intros Hc. apply consistent_app in Hc. destruct Hc as [Hc1 Hc2].
+      rewrite (HF Hc1). apply gden_pre; auto.
+    + specialize (IH (OErr x) st nx'). destruct (resume rest (OErr x) st nx') as [[g nx''] tr'].
+      intros Hc. apply consistent_app in Hc. destruct Hc as [Hc1 Hc2].
+      rewrite (HF Hc1). apply gden_pre; auto.
+    + intros Hc. exfalso. auto.
+    + exact HF.
+Qed.
+
+Lemma res_glob_sem : forall ev below st r, fsem ev below r -> nr r ->
+  let '(g, nx', tr) := res_glob below st r in consistent tr -> gden g tr (sres below ev).
+Proof.
+  intros. destruct r; unfold fsem in H; simpl in H, H0; simpl res_glob.
+  - pose proof (resume_sem below (OVal v) st nx) as HR. destruct (resume below (OVal v) st nx) as [[g nx''] tr'].
+    intros Hc. apply consistent_app in Hc. destruct Hc as [Hc1 Hc2]. rewrite (H Hc1). apply gden_pre; auto.
+  - pose proof (resume_sem below (OErr x) st nx) as HR. destruct (resume below (OErr x) st nx) as [[g nx''] tr'].
+    intros Hc. apply consistent_app in Hc. destruct Hc as [Hc1 Hc2]. rewrite (H Hc1). apply gden_pre; auto.
+  - intros Hc. exfalso; auto.
+  - exact H.
+Qed.
+
+(* invariant of whole runs: the root outcomes seen so far, and the one the configuration will produce,
+   are T *)
+Definition J (T : outcome) (rs : run_state) : Prop := consistent (r_tr rs) -> gden (r_cfg rs) (r_tr rs) T.
+
+Lemma absorb_J : forall T rs x,
+  J T rs ->
+  (forall (Hold : consistent (r_tr rs)), gden (r_cfg rs) (r_tr rs) T ->
+     let '(g, nx, tr) := x in consistent tr -> gden g tr T) ->
+  J T (absorb rs x).
+Proof.
+  unfold J; intros T rs [[g nx] tr] HJ HX. unfold absorb; simpl.
+  intros Hc. apply consistent_app in Hc. destruct Hc as [Hc1 Hc2].
+  specialize (HJ Hc1). specialize (HX Hc1 HJ Hc2).
+  apply gden_combine; auto. destruct HJ; auto.
+Qed.
+
+Lemma run_start_J : forall body ps, J (eval body []) (run_start body ps).
+Proof.
+  intros. unfold run_start. apply absorb_J.
+  - unfold J; simpl. intros _. split; auto. intros o Hin. exfalso.
+    destruct ps; simpl in Hin; intuition discriminate.
+  - intros _ _.
+    pose proof (close_body_fsem (eval body []) 0 [] _ (run_body_sem _ body (le_n _) 0 [] [] [] [] [] ps 1)
+                  (run_body_nr _ body (le_n _) 0 [] [] [] [] [] ps 1)) as HF.
+    pose proof (close_body_nr 0 [] _ (run_body_nr _ body (le_n _) 0 [] [] [] [] [] ps 1)) as HN.
+    exact (res_glob_sem _ [] ps _ HF HN).
+Qed.
+
+Lemma skip_J : forall T rs, J T rs -> J T (skip rs).
+Proof.
+  unfold J, skip; simpl; intros. apply consistent_app in H0. destruct H0 as [Hc _].
+  specialize (H Hc). destruct H. split; auto.
+  intros o Hin. apply in_app_or in Hin. destruct Hin as [Hin|[Hin|[]]]; [auto|discriminate].
+Qed.
+
+Lemma on_leaf_J : forall T rs id o x,
+  J T rs -> on_leaf (r_cfg rs) id o (r_stopped rs) (r_next rs) = Some x -> J T (absorb rs x).
+Proof.
+  intros T rs id o x HJ Hx. apply absorb_J; auto. intros Hold HG.
+  destruct (r_cfg rs) as [s stack|zs| |]; cbn [on_leaf] in Hx; try discriminate.
+  destruct s as [id' kd seen|eo c zs]; cbn [on_leaf] in Hx.
+  - destruct (Nat.eqb id id') eqn:E; [|discriminate]. apply Nat.eqb_eq in E. subst id'.
+    destruct HG as [_ HG].
+    assert (Hx' : (let '(g', nx', tr) := resume stack o (r_stopped rs) (r_next rs) in (g', nx', TLeafDone id o :: tr)) = x).
+    { destruct kd, o; try discriminate; simpl in Hx;
+        destruct (resume stack _ (r_stopped rs) (r_next rs)) as [[? ?] ?]; inversion Hx; reflexivity. }
+    rewrite <- Hx'. pose proof (resume_sem stack o (r_stopped rs) (r_next rs)) as HR.
+    destruct (resume stack o (r_stopped rs) (r_next rs)) as [[g nx'] tr].
+    intros Hc. assert (Hr : rho id = o) by (apply Hc; simpl; auto).
+    change (TLeafDone id o :: tr) with ([TLeafDone id o] ++ tr).
+    apply gden_pre; [apply noroot_one; discriminate|].
+    rewrite <- HG, Hr. apply HR. intros i o' Hin. apply Hc. simpl; auto.
+  - destruct stack as [|f rest]; [discriminate|]. cbn [on_leaf] in Hx. destruct HG as [_ HG].
+    destruct (c_leaf c) as [l|]; [|discriminate].
+    destruct (Nat.eqb id l); [|discriminate].
+    destruct o as [v|e|].
+    + destruct eo as [v'|e'|].
+      * pose proof (res_glob_sem _ rest (r_stopped rs) _ (finish_fsem (f_n f) (OVal v') (f_cleanups f) rest (r_next rs) I)
+                      (finish_nr _ _ _ _ _)) as HR.
+        destruct (res_glob rest (r_stopped rs) (finish (f_n f) (OVal v') (f_cleanups f) rest (r_next rs))) as [[g nx'] tr].
+        injection Hx as <-. intros Hc.
+        change (TLeafDone id (OVal v) :: TCleanupEnd (f_n f) (c_id c) :: tr)
+          with ([TLeafDone id (OVal v); TCleanupEnd (f_n f) (c_id c)] ++ tr).
+        apply gden_pre; [intros o' Hin; simpl in Hin; intuition discriminate|].
+        rewrite <- HG. apply HR. intros i o' Hin. apply Hc. simpl; auto.
+      * pose proof (res_glob_sem _ rest (r_stopped rs) _ (finish_fsem (f_n f) (OErr e') (f_cleanups f) rest (r_next rs) I)
+                      (finish_nr _ _ _ _ _)) as HR.
+        destruct (res_glob rest (r_stopped rs) (finish (f_n f) (OErr e') (f_cleanups f) rest (r_next rs))) as [[g nx'] tr].
+        injection Hx as <-. intros Hc.
+        change (TLeafDone id (OVal v) :: TCleanupEnd (f_n f) (c_id c) :: tr)
+          with ([TLeafDone id (OVal v); TCleanupEnd (f_n f) (c_id c)] ++ tr).
+        apply gden_pre; [intros o' Hin; simpl in Hin; intuition discriminate|].
+        rewrite <- HG. apply HR. intros i o' Hin. apply Hc. simpl; auto.
+      * pose proof (unwind_done_den (f :: rest) zs) as HU.
+        destruct (unwind_done zs (f :: rest)) as [g tr]. simpl in HU.
+        injection Hx as <-. intros Hc.
+        change (TLeafDone id (OVal v) :: TCleanupEnd (f_n f) (c_id c) :: tr)
+          with ([TLeafDone id (OVal v); TCleanupEnd (f_n f) (c_id c)] ++ tr).
+        apply gden_pre; [intros o' Hin; simpl in Hin; intuition discriminate|].
+        rewrite <- HG, sres_done. exact HU.
+    + injection Hx as <-. intros _. split; [|exact I]. intros o' Hin; simpl in Hin; intuition discriminate.
+    + injection Hx as <-. intros _. split; [|exact I]. intros o' Hin; simpl in Hin; intuition discriminate.
+Qed.
+
+Lemma stop_J : forall T rs, J T rs ->
+  J T (let (g, tr) := on_stop (r_cfg rs) in
+       {| r_cfg := g; r_stopped := true; r_next := r_next rs; r_tr := r_tr rs ++ TStopReq :: tr |}).
+Proof.
+  intros T rs HJ.
+  assert (Hgen : forall g tr, (consistent (r_tr rs) -> gden (r_cfg rs) (r_tr rs) T -> consistent tr -> gden g tr T) ->
+            J T {| r_cfg := g; r_stopped := true; r_next := r_next rs; r_tr := r_tr rs ++ TStopReq :: tr |}).
+  { intros g tr H. unfold J; simpl. intros Hc. apply consistent_app in Hc. destruct Hc as [Hc1 Hc2].
+    specialize (HJ Hc1).
+    assert (Hc3 : consistent tr) by (intros i o Hin; apply Hc2; simpl; auto).
+    specialize (H Hc1 HJ Hc3).
+    apply gden_combine; [destruct HJ; auto|].
+    change (TStopReq :: tr) with ([TStopReq] ++ tr). apply gden_pre; [apply noroot_one; discriminate|exact H]. }
+  assert (Hsame : J T {| r_cfg := r_cfg rs; r_stopped := true; r_next := r_next rs; r_tr := r_tr rs ++ [TStopReq] |}).
+  { apply Hgen. intros _ [_ HG] _. split; [intros o []|exact HG]. }
+  destruct (r_cfg rs) as [s stack|zs| |] eqn:EC; cbn [on_stop]; try exact Hsame.
+  destruct s as [id kd seen|eo c zs]; try exact Hsame.
+  destruct kd; try exact Hsame; destruct seen; try exact Hsame.
+  - apply Hgen. intros _ [_ HG] _. split; [intros o Hin; simpl in Hin; intuition discriminate|exact HG].
+  - pose proof (unwind_done_den stack []) as HU. destruct (unwind_done [] stack) as [g tr]. simpl in HU.
+    apply Hgen. intros _ [_ HG] Hc.
+    assert (Hr : rho id = ODone) by (apply Hc; simpl; auto).
+    rewrite Hr, sres_done in HG. rewrite <- HG.
+    apply gden_pre; [intros o Hin; simpl in Hin; intuition discriminate|exact HU].
+Qed.
+
+Lemma run_ev_J : forall T rs ev, J T rs -> J T (run_ev rs ev).
+Proof.
+  intros T rs [id o|] H; unfold run_ev.
+  - destruct (on_leaf (r_cfg rs) id o (r_stopped rs) (r_next rs)) eqn:E.
+    + eapply on_leaf_J; eauto.
+    + apply skip_J; assumption.
+  - destruct (r_stopped rs).
+    + apply skip_J; assumption.
+    + apply stop_J; assumption.
+Qed.
+
+Lemma fold_J : forall T script rs, J T rs -> J T (fold_left run_ev script rs).
+Proof. induction script; simpl; intros; auto. apply IHscript. apply run_ev_J; assumption. Qed.
+
+Lemma finish_run_roots : forall T rs, J T rs -> consistent (r_tr (finish_run rs)) ->
+  forall o, In (TRoot o) (r_tr (finish_run rs)) -> o = T.
+Proof.
+  unfold J, finish_run; intros T rs HJ Hc o Hin.
+  destruct (r_cfg rs) as [s stack|zs| |]; simpl in *.
+  - destruct (HJ Hc); auto.
+  - apply consistent_app in Hc. destruct Hc as [Hc _]. destruct (HJ Hc) as [HR _].
+    apply in_app_or in Hin. destruct Hin as [Hin|[Hin|Hin]]; auto; [discriminate|].
+    exfalso. unfold destroy_frames in Hin. apply in_flat_map in Hin. destruct Hin as (f & _ & Hin).
+    apply in_app_or in Hin. destruct Hin as [Hin|[Hin|[]]]; [|discriminate].
+    eapply noroot_dtors; eauto.
+  - apply consistent_app in Hc. destruct Hc as [Hc _]. destruct (HJ Hc) as [HR _].
+    apply in_app_or in Hin. destruct Hin as [Hin|[Hin|[]]]; auto; discriminate.
+  - destruct (HJ Hc); auto.
+Qed.
+End Denot.
+
+(* ADEQUACY: whatever the script (order of leaf completions, stop request anywhere), the root receiver is
+   completed with [eval rho body []] for every oracle rho that agrees with the leaf completions that
+   happened in the run. *)
+Theorem adequacy : forall (rho : nat -> outcome) body prestopped script,
+  let tr := r_tr (exec body prestopped script) in
+  (forall id o, In (TLeafDone id o) tr -> rho id = o) ->
+  forall o, In (TRoot o) tr -> o = eval rho body [].
+Proof.
+  intros rho body ps script tr Hc o Hin.
+  eapply finish_run_roots; [apply fold_J; apply run_start_J|exact Hc|exact Hin].
+Qed.
+
+(* the equations of [eval], spelled out *)
+Definition aw_eval (rho : nat -> outcome) (s : aw) (env : list Z) : outcome :=
+  match s with
+  | AJust a => OVal (arg_val a env)
+  | AAwJust a => OVal (arg_val a env)
+  | AErr x => OErr x
+  | AAwErr x => OErr x
+  | ADone => ODone
+  | ALeaf _ id => rho id
+  | ATask b => eval rho b env
+  end.
+
+Lemma eval_await : forall rho s k env,
+  eval rho (CAwait s k) env =
+  match aw_eval rho s env with
+  | OVal v => eval rho k (v :: env)          (* the value is returned by co_await *)
+  | OErr x => eval rho (CThrow x) env        (* the error is rethrown at the co_await *)
+  | ODone => ODone                           (* the coroutine is cancelled *)
+  end.
+Proof. intros. destruct s; reflexivity. Qed.
+
+Lemma eval_task : forall rho b env a x,
+  aw_eval rho (ATask b) env = eval rho b env /\
+  eval rho (CRet a) env = OVal (arg_val a env) /\
+  eval rho (CThrow x) env = OErr x.
+Proof. intros. repeat split; reflexivity. Qed.
+
+(* round trips: a plain awaitable is awaited through as_sender / connect_awaitable / await_transform and
+   gives what the sender gives; a task that only forwards what it awaits (sender -> awaitable -> sender)
+   completes as the awaited thing does *)
+Lemma eval_roundtrip : forall rho s env a x,
+  aw_eval rho (AAwJust a) env = aw_eval rho (AJust a) env /\
+  aw_eval rho (AAwErr x) env = aw_eval rho (AErr x) env /\
+  aw_eval rho (ATask (CAwait s (CRet (AVar 0 0)))) env = aw_eval rho s env.
+Proof.
+  intros. repeat split; try reflexivity.
+  unfold aw_eval at 1. rewrite eval_await.
+  destruct (aw_eval rho s env); simpl; auto. rewrite Z.add_0_r. reflexivity.
+Qed.
+
+(* ---------------------------------------------------------------------------------------------- *)
+(* What acceptance by the monitor means, in terms of the trace alone (no machine involved: these  *)
+(* hold for every trace the monitor accepts, the model's by exec_monitored and the               *)
+(* implementation's whenever the K2 tie reports the extracted monitor's "ok").                   *)
+Definition ftag (e : tev) : option nat :=
+  match e with
+  | TFrame n => Some n
+  | TFrameDestroyed n => Some n
+  | TLocalCtor f _ => Some f
+  | TLocalDtor f _ => Some f
+  | TCleanupReg f _ => Some f
+  | TCleanupRun f _ => Some f
+  | TCleanupEnd f _ => Some f
+  | _ => None
+  end.
+
+Definition reg1 (n : nat) (e : tev) : list nat :=
+  match e with TCleanupReg f c => if Nat.eqb f n then [c] else [] | _ => [] end.
+Definition run1 (n : nat) (e : tev) : list nat :=
+  match e with TCleanupRun f c => if Nat.eqb f n then [c] else [] | _ => [] end.
+Definition end1 (n : nat) (e : tev) : list nat :=
+  match e with TCleanupEnd f c => if Nat.eqb f n then [c] else [] | _ => [] end.
+Definition ctor1 (n : nat) (e : tev) : list nat :=
+  match e with TLocalCtor f i => if Nat.eqb f n then [i] else [] | _ => [] end.
+Definition dtor1 (n : nat) (e : tev) : list nat :=
+  match e with TLocalDtor f i => if Nat.eqb f n then [i] else [] | _ => [] end.
+Definition frame1 (n : nat) (e : tev) : list unit :=
+  match e with TFrame f => if Nat.eqb f n then [tt] else [] | _ => [] end.
+Definition fd1 (n : nat) (e : tev) : list unit :=
+  match e with TFrameDestroyed f => if Nat.eqb f n then [tt] else [] | _ => [] end.
+
+(* cleanup actions registered / started / finished in frame n, in order; locals constructed / destroyed in
+   frame n, in order; number of creations / destructions of frame n *)
+Definition regs (n : nat) (tr : list tev) : list nat := flat_map (reg1 n) tr.
+Definition runs (n : nat) (tr : list tev) : list nat := flat_map (run1 n) tr.
+Definition ends (n : nat) (tr : list tev) : list nat := flat_map (end1 n) tr.
+Definition ctors (n : nat) (tr : list tev) : list nat := flat_map (ctor1 n) tr.
+Definition dtors_of (n : nat) (tr : list tev) : list nat := flat_map (dtor1 n) tr.
+Definition created (n : nat) (tr : list tev) : nat := length (flat_map (frame1 n) tr).
+Definition destroyed (n : nat) (tr : list tev) : nat := length (flat_map (fd1 n) tr).
+Definition occ (i : nat) (l : list nat) : nat := count_occ Nat.eq_dec l i.
+
+(* summary of everything about frame n in a trace *)
+Record fsum := { u_regs : list nat; u_runs : list nat; u_ends : list nat; u_ctors : list nat; u_dtors : list nat;
+                 u_created : nat; u_destroyed : nat }.
+Definition fs (n : nat) (tr : list tev) : fsum :=
+  {| u_regs := regs n tr; u_runs := runs n tr; u_ends := ends n tr; u_ctors := ctors n tr; u_dtors := dtors_of n tr;
+     u_created := created n tr; u_destroyed := destroyed n tr |}.
+
+Definition cur_list (s : lst) : list nat := match l_cur s with Some c => [c] | None => [] end.
+
+Definition LiveInv (s : lst) (u : fsum) : Prop :=
+  rev (u_regs u) = u_runs u ++ l_pend s /\
+  u_runs u = u_ends u ++ cur_list s /\
+  (l_ran s = false -> u_runs u = []) /\
+  u_created u = 1 /\ u_destroyed u = 0 /\
+  (forall i, occ i (u_ctors u) = occ i (u_dtors u) + occ i (l_locals s)).
+Definition GoneInv (u : fsum) : Prop :=
+  u_runs u = rev (u_regs u) /\ u_ends u = u_runs u /\ u_created u = 1 /\ u_destroyed u = 1 /\
+  (forall i, occ i (u_ctors u) = occ i (u_dtors u)).
+Definition NoneInv (u : fsum) : Prop :=
+  u_regs u = [] /\ u_runs u = [] /\ u_ends u = [] /\ u_ctors u = [] /\ u_dtors u = [] /\
+  u_created u = 0 /\ u_destroyed u = 0.
+
+Definition GI (tr : list tev) (m : mst) : Prop :=
+  NoDup (map l_n (m_live m)) /\
+  (forall s, In s (m_live m) -> l_n s < m_next m /\ LiveInv s (fs (l_n s) tr)) /\
+  (forall n, n < m_next m -> ~ In n (map l_n (m_live m)) -> GoneInv (fs n tr)) /\
+  (forall n, m_next m <= n -> NoneInv (fs n tr)).
+
+Lemma fs_snoc_other : forall n tr e, (forall k, ftag e = Some k -> k <> n) -> fs n (tr ++ [e]) = fs n tr.
+Proof.
+  intros. unfold fs, regs, runs, ends, ctors, dtors_of, created, destroyed.
+  rewrite !flat_map_app. simpl. rewrite !app_nil_r.
+  assert (E : reg1 n e = [] /\ run1 n e = [] /\ end1 n e = [] /\ ctor1 n e = [] /\ dtor1 n e = [] /\
+              frame1 n e = [] /\ fd1 n e = []).
+  { destruct e; simpl; repeat split; auto;
+      match goal with |- (if Nat.eqb ?a n then _ else _) = _ =>
+        destruct (Nat.eqb a n) eqn:E; auto; apply Nat.eqb_eq in E; exfalso; eapply (H a); eauto end. }
+  destruct E as (-> & -> & -> & -> & -> & -> & ->). rewrite !app_nil_r. reflexivity.
+Qed.
+
+Lemma upd_spec : forall n f live live',
+  upd n f live = Some live' ->
+  exists pre s post s', live = pre ++ s :: post /\ l_n s = n /\ f s = Some s' /\ live' = pre ++ s' :: post.
+Proof.
+  induction live as [|a live IH]; simpl; intros; [discriminate|].
+  destruct (Nat.eqb (l_n a) n) eqn:E.
+  - destruct (f a) eqn:F; simpl in H; [|discriminate]. inversion H; subst.
+    apply Nat.eqb_eq in E. exists [], a, live, l. auto.
+  - destruct (quiet a); [|discriminate].
+    destruct (upd n f live) eqn:U; simpl in H; [|discriminate]. inversion H; subst.
+    destruct (IH _ eq_refl) as (pre & s & post & s' & -> & Hn & Hf & ->).
+    exists (a :: pre), s, post, s'. auto.
+Qed.
+
+(* replacing the entry of frame k by one with the same number *)
+Lemma GI_replace : forall tr e m k pre s post s',
+  GI tr m -> m_live m = pre ++ s :: post -> l_n s = k -> l_n s' = k ->
+  (forall j, ftag e = Some j -> j = k) ->
+  LiveInv s' (fs k (tr ++ [e])) ->
+  forall m', m_live m' = pre ++ s' :: post -> m_next m' = m_next m -> GI (tr ++ [e]) m'.
+Proof.
+  intros tr e m k pre s post s' (HND & HL & HG & HN) Hlive Hs Hs' Htag HI m' Hlive' Hnext.
+  assert (Hmap : map l_n (m_live m') = map l_n (m_live m)).
+  { rewrite Hlive, Hlive', !map_app. simpl. rewrite Hs, Hs'. reflexivity. }
+  unfold GI. rewrite Hmap, Hnext. split; [exact HND|]. split; [|split].
+  - intros x Hx. rewrite Hlive' in Hx. apply in_app_or in Hx.
+    assert (Hk : l_n s < m_next m) by (apply HL; rewrite Hlive; apply in_or_app; simpl; auto).
+    destruct Hx as [Hx|[Hx|Hx]].
+    + assert (Hin : In x (m_live m)) by (rewrite Hlive; apply in_or_app; auto).
+      split; [apply HL; auto|]. rewrite fs_snoc_other; [apply HL; auto|].
+      intros j Hj. rewrite (Htag j Hj). intros Heq.
+      rewrite Hlive, map_app in HND. simpl in HND. apply NoDup_remove_2 in HND.
+      apply HND. apply in_or_app. left. rewrite Hs, Heq. apply in_map. exact Hx.
+    + subst x. rewrite Hs'. split; [lia|exact HI].
+    + assert (Hin : In x (m_live m)) by (rewrite Hlive; apply in_or_app; simpl; auto).
+      split; [apply HL; auto|]. rewrite fs_snoc_other; [apply HL; auto|].
+      intros j Hj. rewrite (Htag j Hj). intros Heq.
+      rewrite Hlive, map_app in HND. simpl in HND. apply NoDup_remove_2 in HND.
+      apply HND. apply in_or_app. right. rewrite Hs, Heq. apply in_map. exact Hx.
+  - intros n Hn Hnin. rewrite fs_snoc_other; [apply HG; auto|].
+    intros j Hj. rewrite (Htag j Hj). intros Heq. apply Hnin. rewrite Hlive, map_app. simpl.
+    apply in_or_app. right. left. lia.
+  - intros n Hn. rewrite fs_snoc_other; [apply HN; auto|].
+    intros j Hj. rewrite (Htag j Hj). intros Heq.
+    assert (Hk : l_n s < m_next m) by (apply HL; rewrite Hlive; apply in_or_app; simpl; auto). lia.
+Qed.
+
+Ltac fs_snoc_tac := intros; unfold fs, regs, runs, ends, ctors, dtors_of, created, destroyed;
+  rewrite !flat_map_app; simpl; rewrite ?Nat.eqb_refl; simpl; rewrite ?app_nil_r, ?app_length; simpl; reflexivity.
+
+Lemma fs_snoc_ctor : forall n tr i, fs n (tr ++ [TLocalCtor n i]) =
+  {| u_regs := regs n tr; u_runs := runs n tr; u_ends := ends n tr; u_ctors := ctors n tr ++ [i];
+     u_dtors := dtors_of n tr; u_created := created n tr; u_destroyed := destroyed n tr |}.
+Proof. fs_snoc_tac. Qed.
+Lemma fs_snoc_dtor : forall n tr i, fs n (tr ++ [TLocalDtor n i]) =
+  {| u_regs := regs n tr; u_runs := runs n tr; u_ends := ends n tr; u_ctors := ctors n tr;
+     u_dtors := dtors_of n tr ++ [i]; u_created := created n tr; u_destroyed := destroyed n tr |}.
+Proof. fs_snoc_tac. Qed.
+Lemma fs_snoc_reg : forall n tr c, fs n (tr ++ [TCleanupReg n c]) =
+  {| u_regs := regs n tr ++ [c]; u_runs := runs n tr; u_ends := ends n tr; u_ctors := ctors n tr;
+     u_dtors := dtors_of n tr; u_created := created n tr; u_destroyed := destroyed n tr |}.
+Proof. fs_snoc_tac. Qed.
+Lemma fs_snoc_run : forall n tr c, fs n (tr ++ [TCleanupRun n c]) =
+  {| u_regs := regs n tr; u_runs := runs n tr ++ [c]; u_ends := ends n tr; u_ctors := ctors n tr;
+     u_dtors := dtors_of n tr; u_created := created n tr; u_destroyed := destroyed n tr |}.
+Proof. fs_snoc_tac. Qed.
+Lemma fs_snoc_end : forall n tr c, fs n (tr ++ [TCleanupEnd n c]) =
+  {| u_regs := regs n tr; u_runs := runs n tr; u_ends := ends n tr ++ [c]; u_ctors := ctors n tr;
+     u_dtors := dtors_of n tr; u_created := created n tr; u_destroyed := destroyed n tr |}.
+Proof. fs_snoc_tac. Qed.
+Lemma fs_snoc_frame : forall n tr, fs n (tr ++ [TFrame n]) =
+  {| u_regs := regs n tr; u_runs := runs n tr; u_ends := ends n tr; u_ctors := ctors n tr;
+     u_dtors := dtors_of n tr; u_created := created n tr + 1; u_destroyed := destroyed n tr |}.
+Proof. fs_snoc_tac. Qed.
+Lemma fs_snoc_fd : forall n tr, fs n (tr ++ [TFrameDestroyed n]) =
+  {| u_regs := regs n tr; u_runs := runs n tr; u_ends := ends n tr; u_ctors := ctors n tr;
+     u_dtors := dtors_of n tr; u_created := created n tr; u_destroyed := destroyed n tr + 1 |}.
+Proof. fs_snoc_tac. Qed.
+
+Lemma occ_snoc : forall i l x, occ i (l ++ [x]) = occ i l + (if Nat.eq_dec x i then 1 else 0).
+Proof.
+  intros. unfold occ. rewrite count_occ_app. simpl. destruct (Nat.eq_dec x i); reflexivity.
+Qed.
+Lemma occ_cons : forall i l x, occ i (x :: l) = (if Nat.eq_dec x i then 1 else 0) + occ i l.
+Proof. intros. unfold occ. simpl. destruct (Nat.eq_dec x i); reflexivity. Qed.
+
+Lemma frame_ev_spec : forall m n f m', frame_ev m n f = Some m' ->
+  exists live', upd n f (m_live m) = Some live' /\ m' = set_live m live'.
+Proof.
+  unfold frame_ev; intros. destruct (m_wait m); [discriminate|].
+  destruct (upd n f (m_live m)) eqn:U; simpl in H; [|discriminate]. inversion H. eauto.
+Qed.
+
+(* one step of the monitor on a frame event handled by frame_ev *)
+Lemma GI_frame_ev : forall tr e m k f m',
+  GI tr m -> frame_ev m k f = Some m' -> (forall j, ftag e = Some j -> j = k) ->
+  (forall s s', f s = Some s' -> l_n s' = l_n s) ->
+  (forall s s', l_n s = k -> f s = Some s' -> LiveInv s (fs k tr) -> LiveInv s' (fs k (tr ++ [e]))) ->
+  GI (tr ++ [e]) m'.
+Proof.
+  intros tr e m k f m' HGI Hfe Htag Hn HLI.
+  destruct (frame_ev_spec _ _ _ _ Hfe) as (live' & Hu & ->).
+  destruct (upd_spec _ _ _ _ Hu) as (pre & s & post & s' & Hlive & Hs & Hf & ->).
+  eapply GI_replace with (s := s) (s' := s'); eauto.
+  - rewrite (Hn _ _ Hf). exact Hs.
+  - apply (HLI s s' Hs Hf). destruct HGI as (_ & HL & _). rewrite <- Hs. apply HL.
+    rewrite Hlive. apply in_or_app. simpl; auto.
+Qed.
+
+Lemma untagged_live : forall m e m', ftag e = None -> mon_step m e = Some m' ->
+  m_live m' = m_live m /\ m_next m' = m_next m.
+Proof.
+  intros m e m' Ht H. unfold mon_step in H.
+  destruct (m_dead m).
+  { destruct e; try discriminate; inversion H; auto. }
+  destruct (m_expect m).
+  { destruct e; try discriminate. destruct (Nat.eqb n id); [|discriminate]. inversion H; auto. }
+  destruct e; simpl in Ht; try discriminate.
+  - destruct (m_root m); [discriminate|]. destruct (m_wait m); [discriminate|].
+    destruct (Bool.eqb stopped (stoppable0 && m_stopped m)); [|discriminate]. inversion H; auto.
+  - destruct (m_root m); [discriminate|]. destruct (m_wait m); [discriminate|]. inversion H; auto.
+  - destruct (m_wait m) as [[id' b]|]; [|discriminate]. destruct (Nat.eqb id id'); [|discriminate]. inversion H; auto.
+  - destruct (m_stopped m); [discriminate|]. inversion H; auto.
+  - destruct (m_root m); [discriminate|]. destruct (m_wait m); [discriminate|].
+    match type of H with (if ?c then _ else _) = _ => destruct c end; [|discriminate]. inversion H; auto.
+  - destruct (m_root m && negb (m_opd m)); [|discriminate]. inversion H; auto.
+  - inversion H; auto.
+  - inversion H; auto.
+Qed.
+
+Lemma GI_step : forall tr m e m', GI tr m -> mon_step m e = Some m' -> GI (tr ++ [e]) m'.
+Proof.
+  intros tr m e m' HGI H.
+  destruct (ftag e) as [k|] eqn:Ht.
+  2:{ (* events that belong to no frame *)
+    destruct (untagged_live _ _ _ Ht H) as [Hl Hn].
+    destruct HGI as (HND & HL & HG & HN). unfold GI. rewrite Hl, Hn.
+    assert (Hfs : forall n, fs n (tr ++ [e]) = fs n tr).
+    { intros. apply fs_snoc_other. intros j Hj. congruence. }
+    split; [exact HND|]. split; [|split]; intros; rewrite Hfs; auto. }
+  unfold mon_step in H.
+  destruct (m_dead m) eqn:Hdead.
+  { destruct e; try discriminate. }
+  destruct (m_expect m) eqn:Hexp.
+  { destruct e; try discriminate. }
+  destruct e; simpl in Ht; try discriminate; inversion Ht; subst k.
+  - (* TFrame *)
+    destruct (m_root m); [discriminate|]. destruct (m_wait m); [discriminate|].
+    destruct (Nat.eqb n (m_next m)) eqn:E; [|discriminate]. apply Nat.eqb_eq in E. inversion H; subst m'. clear H.
+    destruct HGI as (HND & HL & HG & HN).
+    unfold GI. simpl. split; [|split; [|split]].
+    + constructor; auto. intros Hin. apply in_map_iff in Hin. destruct Hin as (s & Hs & Hin).
+      destruct (HL s Hin). lia.
+    + intros s [Hs|Hs].
+      * subst s. simpl. split; [lia|]. rewrite fs_snoc_frame.
+        destruct (HN n ltac:(lia)) as (R1 & R2 & R3 & R4 & R5 & R6 & R7). simpl in *.
+        unfold LiveInv; simpl. rewrite R1, R2, R3, R4, R5, R6, R7. repeat split; auto.
+      * destruct (HL s Hs). split; [lia|]. rewrite fs_snoc_other; auto. simpl. intros j Hj. inversion Hj. lia.
+    + intros k Hk Hnin. rewrite fs_snoc_other.
+      * apply HG; [|intros Hin; apply Hnin; auto]. assert (k <> n) by (intros ->; apply Hnin; auto). lia.
+      * simpl. intros j Hj. inversion Hj. subst j. intros ->. apply Hnin. auto.
+    + intros k Hk. rewrite fs_snoc_other; [apply HN; lia|]. simpl. intros j Hj. inversion Hj. lia.
+  - (* TLocalCtor *)
+    destruct (m_root m); [discriminate|].
+    eapply GI_frame_ev; eauto.
+    + simpl. intros j Hj. inversion Hj; auto.
+    + intros s s' Hf. cbv beta in Hf. destruct (l_cur s), (l_ran s); try discriminate. inversion Hf. reflexivity.
+    + intros s s' Hs Hf (I1 & I2 & I3 & I4 & I5 & I6). cbv beta in Hf.
+      destruct (l_cur s) eqn:Ec, (l_ran s) eqn:Er; try discriminate. inversion Hf; subst s'. clear Hf.
+      rewrite fs_snoc_ctor. unfold LiveInv, cur_list in *. rewrite Ec in I2. simpl in *.
+      repeat split; auto. intros i. rewrite occ_snoc, I6. destruct (Nat.eq_dec id i); lia.
+  - (* TLocalDtor *)
+    destruct (m_root m && negb (m_opd m)); [discriminate|].
+    eapply GI_frame_ev; eauto.
+    + simpl. intros j Hj. inversion Hj; auto.
+    + intros s s' Hf. cbv beta in Hf. destruct (l_cur s), (l_locals s) as [|i0 ls]; try discriminate.
+      destruct (Nat.eqb id i0); [|discriminate]. inversion Hf. reflexivity.
+    + intros s s' Hs Hf (I1 & I2 & I3 & I4 & I5 & I6). cbv beta in Hf.
+      destruct (l_cur s) eqn:Ec, (l_locals s) as [|i0 ls] eqn:El; try discriminate.
+      destruct (Nat.eqb id i0) eqn:E; [|discriminate]. apply Nat.eqb_eq in E. subst i0.
+      inversion Hf; subst s'. clear Hf.
+      rewrite fs_snoc_dtor. unfold LiveInv, cur_list in *. rewrite Ec in I2. simpl in *.
+      repeat split; auto. intros i. rewrite occ_snoc, I6. destruct (Nat.eq_dec id i); lia.
+  - (* TCleanupReg *)
+    destruct (m_root m); [discriminate|].
+    eapply GI_frame_ev; eauto.
+    + simpl. intros j Hj. inversion Hj; auto.
+    + intros s s' Hf. cbv beta in Hf. destruct (l_cur s), (l_ran s); try discriminate. inversion Hf. reflexivity.
+    + intros s s' Hs Hf (I1 & I2 & I3 & I4 & I5 & I6). cbv beta in Hf.
+      destruct (l_cur s) eqn:Ec, (l_ran s) eqn:Er; try discriminate. inversion Hf; subst s'. clear Hf.
+      rewrite fs_snoc_reg. unfold LiveInv, cur_list in *. rewrite Ec in I2. simpl in *.
+      specialize (I3 eq_refl). rewrite I3 in *. simpl in *.
+      repeat split; auto. rewrite rev_app_distr. simpl. rewrite I1. reflexivity.
+  - (* TCleanupRun *)
+    destruct (m_root m); [discriminate|].
+    eapply GI_frame_ev; eauto.
+    + simpl. intros j Hj. inversion Hj; auto.
+    + intros s s' Hf. cbv beta in Hf. destruct (l_cur s), (l_pend s) as [|c0 ps]; try discriminate.
+      destruct (Nat.eqb c c0); [|discriminate]. inversion Hf. reflexivity.
+    + intros s s' Hs Hf (I1 & I2 & I3 & I4 & I5 & I6). cbv beta in Hf.
+      destruct (l_cur s) eqn:Ec, (l_pend s) as [|c0 ps] eqn:Ep; try discriminate.
+      destruct (Nat.eqb c c0) eqn:E; [|discriminate]. apply Nat.eqb_eq in E. subst c0.
+      inversion Hf; subst s'. clear Hf.
+      rewrite fs_snoc_run. unfold LiveInv, cur_list in *. rewrite Ec in I2. simpl in *.
+      rewrite app_nil_r in I2.
+      repeat split; auto.
+      * rewrite I1, <- app_assoc. reflexivity.
+      * rewrite I2. reflexivity.
+      * intros; discriminate.
+  - (* TCleanupEnd *)
+    destruct (m_root m); [discriminate|].
+    eapply GI_frame_ev; eauto.
+    + simpl. intros j Hj. inversion Hj; auto.
+    + intros s s' Hf. cbv beta in Hf. destruct (nat_eq_opt (l_cur s) c); [|discriminate]. inversion Hf. reflexivity.
+    + intros s s' Hs Hf (I1 & I2 & I3 & I4 & I5 & I6). cbv beta in Hf.
+      destruct (nat_eq_opt (l_cur s) c) eqn:E; [|discriminate].
+      unfold nat_eq_opt in E. destruct (l_cur s) as [c0|] eqn:Ec; [|discriminate].
+      apply Nat.eqb_eq in E. subst c0. inversion Hf; subst s'. clear Hf.
+      rewrite fs_snoc_end. unfold LiveInv, cur_list in *. rewrite Ec in I2. simpl in *.
+      repeat split; auto.
+      * rewrite app_nil_r. exact I2.
+  - (* TFrameDestroyed *)
+    destruct (m_root m && negb (m_opd m)); [discriminate|].
+    destruct (m_wait m); [discriminate|].
+    destruct (m_live m) as [|s rest] eqn:El; [discriminate|].
+    destruct (Nat.eqb (l_n s) n) eqn:E; [|discriminate]. apply Nat.eqb_eq in E.
+    destruct (l_locals s) eqn:Eloc; [|discriminate]. destruct (l_pend s) eqn:Ep; [|discriminate].
+    destruct (l_cur s) eqn:Ec; [discriminate|]. inversion H; subst m'. clear H.
+    destruct HGI as (HND & HL & HG & HN). rewrite El in *. simpl in HND. inversion HND as [|? ? Hnin HND']; subst.
+    unfold GI. simpl. split; [exact HND'|]. split; [|split].
+    + intros x Hx. destruct (HL x (or_intror Hx)). split; auto.
+      rewrite fs_snoc_other; auto. simpl. intros j Hj. inversion Hj. subst j.
+      intros Heq. apply Hnin. rewrite Heq. apply in_map. exact Hx.
+    + intros k Hk Hnin'. destruct (Nat.eq_dec k (l_n s)) as [->|Hne].
+      * destruct (HL s (or_introl eq_refl)) as [_ (I1 & I2 & I3 & I4 & I5 & I6)].
+        rewrite fs_snoc_fd. unfold GoneInv, cur_list in *. rewrite Ec, Ep, Eloc in *. simpl in *.
+        rewrite app_nil_r in *. repeat split; auto; try lia.
+        intros i. rewrite I6. unfold occ. simpl. lia.
+      * rewrite fs_snoc_other; [apply HG; auto; intros [Hin|Hin]; [lia|auto]|].
+        simpl. intros j Hj. inversion Hj. lia.
+    + intros k Hk. rewrite fs_snoc_other; [apply HN; auto|]. simpl. intros j Hj. inversion Hj.
+      destruct (HL s (or_introl eq_refl)). lia.
+Qed.
+
+Lemma GI_init : GI [] m0.
+Proof.
+  unfold GI, m0; simpl. split; [constructor|]. split; [intros s []|]. split; [intros; lia|].
+  intros. unfold NoneInv; simpl. repeat split; reflexivity.
+Qed.
+
+Lemma GI_run : forall tr2 tr m m', GI tr m -> mon_run m tr2 = Some m' -> GI (tr ++ tr2) m'.
+Proof.
+  induction tr2; simpl; intros.
+  - inversion H0; subst. rewrite app_nil_r. assumption.
+  - destruct (mon_step m a) eqn:E; [|discriminate].
+    replace (tr ++ a :: tr2) with ((tr ++ [a]) ++ tr2) by (rewrite <- app_assoc; reflexivity).
+    eapply IHtr2; [|eassumption]. eapply GI_step; eauto.
+Qed.
+
+(* the flags of the monitor *)
+Definition noterm (tr : list tev) : Prop := ~ In TTerminate tr.
+
+Lemma frame_ev_flags : forall m n f m', frame_ev m n f = Some m' ->
+  m_dead m' = m_dead m /\ m_root m' = m_root m /\ m_stopped m' = m_stopped m.
+Proof. intros. destruct (frame_ev_spec _ _ _ _ H) as (l & _ & ->). auto. Qed.
+
+Lemma flags_step : forall m e m', mon_step m e = Some m' -> m_dead m = false ->
+  (e <> TTerminate -> m_dead m' = false) /\
+  (e <> TTerminate -> m_root m = true -> m_root m' = true) /\
+  (forall o, e = TRoot o -> m_root m' = true).
+Proof.
+  intros m e m' H Hd. unfold mon_step in H. rewrite Hd in H.
+  destruct (m_expect m).
+  { destruct e; try discriminate. destruct (Nat.eqb n id); [|discriminate]. inversion H; subst; simpl.
+    repeat split; auto; intros; discriminate. }
+  destruct e;
+    repeat match type of H with
+           | (if ?c then _ else _) = _ => destruct c eqn:?; try discriminate
+           | match ?x with _ => _ end = _ => destruct x eqn:?; try discriminate
+           end;
+    try (apply frame_ev_flags in H; destruct H as (H1 & H2 & H3); rewrite H1, H2;
+         repeat split; auto; intros; discriminate);
+    try (inversion H; subst; simpl; repeat split; auto; intros; try discriminate; congruence).
+Qed.
+
+Lemma flags_run : forall tr m m', mon_run m tr = Some m' -> m_dead m = false -> noterm tr ->
+  m_dead m' = false /\ (m_root m = true -> m_root m' = true) /\ ((exists o, In (TRoot o) tr) -> m_root m' = true).
+Proof.
+  induction tr; simpl; intros.
+  - inversion H; subst. repeat split; auto. intros [o []].
+  - destruct (mon_step m a) eqn:E; [|discriminate].
+    assert (Ha : a <> TTerminate) by (intros ->; apply H1; simpl; auto).
+    assert (Hn : noterm tr) by (intros Hin; apply H1; simpl; auto).
+    destruct (flags_step _ _ _ E H0) as (F1 & F2 & F3).
+    destruct (IHtr _ _ H (F1 Ha) Hn) as (G1 & G2 & G3).
+    repeat split; auto.
+    intros [o [Ho|Ho]]; [apply G2; eapply F3; eauto|apply G3; eauto].
+Qed.
+
+(* (1) a completed run: in every frame the cleanup actions ran in reverse registration order, each exactly
+   once and to the end; the frame was destroyed exactly once; every local was destroyed as often as it
+   was constructed *)
+Theorem accepted_lifecycles : forall tr,
+  monitor tr = true -> (exists o, In (TRoot o) tr) -> noterm tr ->
+  forall n,
+    runs n tr = rev (regs n tr) /\ ends n tr = runs n tr /\
+    destroyed n tr = created n tr /\ created n tr <= 1 /\
+    (forall i, occ i (dtors_of n tr) = occ i (ctors n tr)).
+Proof.
+  unfold monitor; intros tr Hm Hroot Hnt n.
+  destruct (mon_run m0 tr) as [m|] eqn:Hr; [|discriminate].
+  destruct (flags_run _ _ _ Hr eq_refl Hnt) as (Hd & _ & HR). specialize (HR Hroot).
+  unfold mon_final in Hm. rewrite Hd, HR in Hm. simpl in Hm.
+  destruct (m_expect m); [discriminate|]. destruct (m_opd m); [|discriminate].
+  destruct (m_live m) eqn:El; [|discriminate].
+  pose proof (GI_run _ _ _ _ GI_init Hr) as (_ & _ & HG & HN). simpl in HG, HN. rewrite El in HG.
+  destruct (Nat.lt_ge_cases n (m_next m)) as [Hlt|Hge].
+  - destruct (HG n Hlt (fun x => x)) as (G1 & G2 & G3 & G4 & G5). simpl in *.
+    repeat split; auto; try lia.
+  - destruct (HN n Hge) as (R1 & R2 & R3 & R4 & R5 & R6 & R7). simpl in *.
+    rewrite R1, R2, R3, R4, R5, R6, R7. repeat split; auto.
+Qed.
+
+Definition accepts (tr : list tev) : Prop := exists m, mon_run m0 tr = Some m.
+
+Lemma accepts_split : forall tr1 e tr2, accepts (tr1 ++ e :: tr2) ->
+  exists m1 m2, mon_run m0 tr1 = Some m1 /\ mon_step m1 e = Some m2.
+Proof.
+  intros tr1 e tr2 [m Hm]. rewrite mon_run_app in Hm.
+  destruct (mon_run m0 tr1) as [m1|]; [|discriminate]. simpl in Hm.
+  destruct (mon_step m1 e) as [m2|] eqn:E; [|discriminate]. eauto.
+Qed.
+
+Lemma quiet_inv : forall s u, quiet s = true -> LiveInv s u -> u_runs u = rev (u_regs u) /\ u_ends u = u_runs u.
+Proof.
+  unfold quiet, LiveInv, cur_list; intros s u Hq (I1 & I2 & _).
+  destruct (l_pend s); [|discriminate]. destruct (l_cur s); [discriminate|].
+  rewrite app_nil_r in *. split; congruence.
+Qed.
+
+(* (2) before the root receiver is completed, every cleanup action registered so far, in any frame, has
+   run (in reverse registration order) and finished *)
+Theorem accepted_before_root : forall tr1 o tr2,
+  accepts (tr1 ++ TRoot o :: tr2) -> noterm tr1 ->
+  forall n, runs n tr1 = rev (regs n tr1) /\ ends n tr1 = runs n tr1.
+Proof.
+  intros tr1 o tr2 Hacc Hnt n.
+  destruct (accepts_split _ _ _ Hacc) as (m1 & m2 & Hr & Hs).
+  destruct (flags_run _ _ _ Hr eq_refl Hnt) as (Hd & _ & _).
+  pose proof (GI_run _ _ _ _ GI_init Hr) as (_ & HL & HG & HN). simpl in HL, HG, HN.
+  unfold mon_step in Hs. rewrite Hd in Hs. destruct (m_expect m1); [discriminate|].
+  destruct (m_root m1); [discriminate|]. destruct (m_wait m1); [discriminate|].
+  assert (Hq : forallb quiet (m_live m1) = true).
+  { destruct o; [destruct (m_live m1); [reflexivity|discriminate]..|].
+    destruct (forallb quiet (m_live m1)); [reflexivity|discriminate]. }
+  destruct (in_dec Nat.eq_dec n (map l_n (m_live m1))) as [Hin|Hnin].
+  - apply in_map_iff in Hin. destruct Hin as (s & Hs' & Hin). subst n.
+    rewrite forallb_forall in Hq. destruct (HL s Hin) as [_ HI].
+    exact (quiet_inv _ _ (Hq s Hin) HI).
+  - destruct (Nat.lt_ge_cases n (m_next m1)) as [Hlt|Hge].
+    + destruct (HG n Hlt Hnin) as (G1 & G2 & _). simpl in *. auto.
+    + destruct (HN n Hge) as (R1 & R2 & R3 & _). simpl in *. rewrite R1, R2, R3. auto.
+Qed.
+
+(* (3) when a frame is destroyed (the awaiting parent resumes): its cleanup actions have all run, in reverse
+   registration order, and finished; its locals are gone; it had not been destroyed before *)
+Theorem accepted_before_frame_destroyed : forall tr1 n tr2,
+  accepts (tr1 ++ TFrameDestroyed n :: tr2) -> noterm tr1 ->
+  runs n tr1 = rev (regs n tr1) /\ ends n tr1 = runs n tr1 /\
+  (forall i, occ i (dtors_of n tr1) = occ i (ctors n tr1)) /\ destroyed n tr1 = 0 /\ created n tr1 = 1.
+Proof.
+  intros tr1 n tr2 Hacc Hnt.
+  destruct (accepts_split _ _ _ Hacc) as (m1 & m2 & Hr & Hs).
+  destruct (flags_run _ _ _ Hr eq_refl Hnt) as (Hd & _ & _).
+  pose proof (GI_run _ _ _ _ GI_init Hr) as (_ & HL & _ & _). simpl in HL.
+  unfold mon_step in Hs. rewrite Hd in Hs. destruct (m_expect m1); [discriminate|].
+  destruct (m_root m1 && negb (m_opd m1)); [discriminate|]. destruct (m_wait m1); [discriminate|].
+  destruct (m_live m1) as [|s rest]; [discriminate|].
+  destruct (Nat.eqb (l_n s) n) eqn:E; [|discriminate]. apply Nat.eqb_eq in E. subst n.
+  destruct (HL s (or_introl eq_refl)) as [_ (I1 & I2 & I3 & I4 & I5 & I6)].
+  unfold cur_list in *.
+  destruct (l_locals s); [|discriminate]. destruct (l_pend s); [|discriminate]. destruct (l_cur s); [discriminate|].
+  simpl in *. rewrite app_nil_r in *. repeat split; auto; try congruence.
+  intros i. rewrite I6. unfold occ. simpl. lia.
+Qed.
+
+(* live frames are stacked in creation order *)
+Definition SI (m : mst) : Prop := sdesc (map l_n (m_live m)).
+
+Lemma SI_step : forall tr m e m', GI tr m -> SI m -> mon_step m e = Some m' -> SI m'.
+Proof.
+  intros tr m e m' HGI HSI H. unfold SI in *.
+  destruct (ftag e) as [k|] eqn:Ht.
+  2:{ destruct (untagged_live _ _ _ Ht H) as [-> _]. exact HSI. }
+  assert (Hfe : forall f, (forall s s', f s = Some s' -> l_n s' = l_n s) -> frame_ev m k f = Some m' ->
+                          sdesc (map l_n (m_live m'))).
+  { intros f Hn Hf. destruct (frame_ev_spec _ _ _ _ Hf) as (live' & Hu & ->).
+    destruct (upd_spec _ _ _ _ Hu) as (pre & s & post & s' & Hlive & Hs & Hfs & ->).
+    simpl. rewrite Hlive in HSI. rewrite map_app in *. simpl in *. rewrite (Hn _ _ Hfs). exact HSI. }
+  unfold mon_step in H.
+  destruct (m_dead m). { destruct e; try discriminate. }
+  destruct (m_expect m). { destruct e; try discriminate. }
+  destruct e; simpl in Ht; try discriminate; inversion Ht; subst k.
+  - destruct (m_root m); [discriminate|]. destruct (m_wait m); [discriminate|].
+    destruct (Nat.eqb n (m_next m)) eqn:E; [|discriminate]. apply Nat.eqb_eq in E. inversion H; subst m'. simpl.
+    constructor; auto. destruct HGI as (_ & HL & _). apply Forall_forall. intros x Hx.
+    apply in_map_iff in Hx. destruct Hx as (s & <- & Hin). destruct (HL s Hin). lia.
+  - destruct (m_root m); [discriminate|]. eapply Hfe; [|exact H].
+    intros s s' Hf. cbv beta in Hf. destruct (l_cur s), (l_ran s); try discriminate. inversion Hf. reflexivity.
+  - destruct (m_root m && negb (m_opd m)); [discriminate|]. eapply Hfe; [|exact H].
+    intros s s' Hf. cbv beta in Hf. destruct (l_cur s), (l_locals s) as [|i0 ls]; try discriminate.
+    destruct (Nat.eqb id i0); [|discriminate]. inversion Hf. reflexivity.
+  - destruct (m_root m); [discriminate|]. eapply Hfe; [|exact H].
+    intros s s' Hf. cbv beta in Hf. destruct (l_cur s), (l_ran s); try discriminate. inversion Hf. reflexivity.
+  - destruct (m_root m); [discriminate|]. eapply Hfe; [|exact H].
+    intros s s' Hf. cbv beta in Hf. destruct (l_cur s), (l_pend s) as [|c0 ps]; try discriminate.
+    destruct (Nat.eqb c c0); [|discriminate]. inversion Hf. reflexivity.
+  - destruct (m_root m); [discriminate|]. eapply Hfe; [|exact H].
+    intros s s' Hf. cbv beta in Hf. destruct (nat_eq_opt (l_cur s) c); [|discriminate]. inversion Hf. reflexivity.
+  - destruct (m_root m && negb (m_opd m)); [discriminate|]. destruct (m_wait m); [discriminate|].
+    destruct (m_live m) as [|s rest]; [discriminate|].
+    destruct (Nat.eqb (l_n s) n); [|discriminate].
+    destruct (l_locals s); [|discriminate]. destruct (l_pend s); [|discriminate]. destruct (l_cur s); [discriminate|].
+    inversion H; subst m'. simpl in *. apply sdesc_inv in HSI. tauto.
+Qed.
+
+Lemma GSI_run : forall tr2 tr m m', GI tr m -> SI m -> mon_run m tr2 = Some m' -> GI (tr ++ tr2) m' /\ SI m'.
+Proof.
+  induction tr2; simpl; intros.
+  - inversion H1; subst. rewrite app_nil_r. auto.
+  - destruct (mon_step m a) eqn:E; [|discriminate].
+    replace (tr ++ a :: tr2) with ((tr ++ [a]) ++ tr2) by (rewrite <- app_assoc; reflexivity).
+    eapply IHtr2; [| |eassumption]; [eapply GI_step|eapply SI_step]; eauto.
+Qed.
+
+Lemma upd_pre_quiet : forall n f live live',
+  upd n f live = Some live' ->
+  exists pre s post, live = pre ++ s :: post /\ l_n s = n /\ forallb quiet pre = true.
+Proof.
+  induction live as [|a live IH]; simpl; intros; [discriminate|].
+  destruct (Nat.eqb (l_n a) n) eqn:E.
+  - apply Nat.eqb_eq in E. exists [], a, live. auto.
+  - destruct (quiet a) eqn:Q; [|discriminate].
+    destruct (upd n f live) eqn:U; simpl in H; [|discriminate].
+    destruct (IH _ eq_refl) as (pre & s & post & -> & Hn & Hq).
+    exists (a :: pre), s, post. simpl. rewrite Q, Hq. auto.
+Qed.
+
+Definition is_frame_ev (e : tev) : bool := match e with TFrame _ => true | _ => false end.
+
+(* (4) whenever anything happens in a frame - its body is resumed, its locals go, one of its cleanup actions
+   starts or ends, it is destroyed - every frame created after it (the tasks it awaited) has run all the
+   cleanup actions it registered, in reverse order and to the end *)
+Theorem accepted_children_first : forall tr1 e tr2 n,
+  accepts (tr1 ++ e :: tr2) -> noterm tr1 -> ftag e = Some n -> is_frame_ev e = false ->
+  forall k, n < k -> runs k tr1 = rev (regs k tr1) /\ ends k tr1 = runs k tr1.
+Proof.
+  intros tr1 e tr2 n Hacc Hnt Ht Hnf k Hk.
+  destruct (accepts_split _ _ _ Hacc) as (m1 & m2 & Hr & Hs).
+  destruct (flags_run _ _ _ Hr eq_refl Hnt) as (Hd & _ & _).
+  assert (HS0 : SI m0) by (unfold SI; simpl; constructor).
+  destruct (GSI_run _ _ _ _ GI_init HS0 Hr) as [(_ & HL & HG & HN) HSI]. simpl in HL, HG, HN.
+  (* the live frames inside n are quiet, n is live *)
+  assert (Hshape : exists pre s post, m_live m1 = pre ++ s :: post /\ l_n s = n /\ forallb quiet pre = true).
+  { unfold mon_step in Hs. rewrite Hd in Hs. destruct (m_expect m1); [destruct e; discriminate|].
+    destruct e; simpl in Ht, Hnf; try discriminate; inversion Ht; subst;
+      try (repeat match type of Hs with (if ?c then _ else _) = _ => destruct c; try discriminate end;
+           destruct (frame_ev_spec _ _ _ _ Hs) as (live' & Hu & _); eapply upd_pre_quiet; eauto).
+    destruct (m_root m1 && negb (m_opd m1)); [discriminate|]. destruct (m_wait m1); [discriminate|].
+    destruct (m_live m1) as [|s rest]; [discriminate|].
+    destruct (Nat.eqb (l_n s) n) eqn:E; [|discriminate]. apply Nat.eqb_eq in E.
+    exists [], s, rest. auto. }
+  destruct Hshape as (pre & s & post & Hlive & Hs' & Hq).
+  destruct (in_dec Nat.eq_dec k (map l_n (m_live m1))) as [Hin|Hnin].
+  - apply in_map_iff in Hin. destruct Hin as (x & Hx & Hin).
+    rewrite Hlive in Hin. apply in_app_or in Hin. destruct Hin as [Hin|Hin].
+    + rewrite forallb_forall in Hq. subst k. destruct (HL x) as [_ HI]; [rewrite Hlive; apply in_or_app; auto|].
+      exact (quiet_inv _ _ (Hq x Hin) HI).
+    + exfalso. unfold SI in HSI. rewrite Hlive, map_app in HSI. apply sdesc_app in HSI.
+      destruct HSI as (_ & HSI & _). simpl in HSI. apply sdesc_inv in HSI. destruct HSI as [_ HSI].
+      destruct Hin as [Hin|Hin]; [subst x; lia|].
+      rewrite Forall_forall in HSI. specialize (HSI (l_n x) (in_map _ _ _ Hin)). lia.
+  - destruct (Nat.lt_ge_cases k (m_next m1)) as [Hlt|Hge].
+    + destruct (HG k Hlt Hnin) as (G1 & G2 & _). simpl in *. auto.
+    + destruct (HN k Hge) as (R1 & R2 & R3 & _). simpl in *. rewrite R1, R2, R3. auto.
+Qed.
+
+(* (5) stop *)
+Definition is_stop (e : tev) : bool := match e with TStopReq => true | _ => false end.
+
+Lemma stopped_step : forall m e m', mon_step m e = Some m' -> m_dead m = false -> e <> TTerminate ->
+  m_stopped m' = m_stopped m || is_stop e.
+Proof.
+  intros m e m' H Hd Hne. unfold mon_step in H. rewrite Hd in H.
+  destruct (m_expect m).
+  { destruct e; try discriminate. destruct (Nat.eqb n id); [|discriminate]. inversion H; subst; simpl.
+    rewrite orb_false_r. reflexivity. }
+  destruct e;
+    repeat match type of H with
+           | (if ?c then _ else _) = _ => destruct c eqn:?; try discriminate
+           | match ?x with _ => _ end = _ => destruct x eqn:?; try discriminate
+           end;
+    try (apply frame_ev_flags in H; destruct H as (H1 & H2 & H3); rewrite H3; simpl; rewrite orb_false_r; reflexivity);
+    try (inversion H; subst; simpl; rewrite ?orb_false_r; auto; congruence).
+Qed.
+
+Lemma stopped_run : forall tr m m', mon_run m tr = Some m' -> m_dead m = false -> noterm tr ->
+  m_stopped m' = m_stopped m || existsb is_stop tr.
+Proof.
+  induction tr; simpl; intros.
+  - inversion H; subst. rewrite orb_false_r. reflexivity.
+  - destruct (mon_step m a) eqn:E; [|discriminate].
+    assert (Ha : a <> TTerminate) by (intros ->; apply H1; simpl; auto).
+    assert (Hn : noterm tr) by (intros Hin; apply H1; simpl; auto).
+    destruct (flags_step _ _ _ E H0) as (F1 & _ & _).
+    rewrite (IHtr _ _ H (F1 Ha) Hn), (stopped_step _ _ _ E H0 Ha), orb_assoc. reflexivity.
+Qed.
+
+(* a leaf that can be stopped starts with stopped = (a stop request was made before); a shielded leaf (inside a
+   cleanup action) starts with stopped = false *)
+Theorem accepted_leaf_start : forall tr1 id st sp tr2,
+  accepts (tr1 ++ TLeafStart id st sp :: tr2) -> noterm tr1 -> st = sp && existsb is_stop tr1.
+Proof.
+  intros tr1 id st sp tr2 Hacc Hnt.
+  destruct (accepts_split _ _ _ Hacc) as (m1 & m2 & Hr & Hs).
+  destruct (flags_run _ _ _ Hr eq_refl Hnt) as (Hd & _ & _).
+  pose proof (stopped_run _ _ _ Hr eq_refl Hnt) as Hst. simpl in Hst.
+  unfold mon_step in Hs. rewrite Hd in Hs. destruct (m_expect m1); [discriminate|].
+  destruct (m_root m1); [discriminate|]. destruct (m_wait m1); [discriminate|].
+  destruct (Bool.eqb st (sp && m_stopped m1)) eqn:E; [|discriminate].
+  apply Bool.eqb_prop in E. rewrite E, Hst. reflexivity.
+Qed.
+
+(* a stop request arriving while a stoppable leaf is pending is followed at once by that leaf's stop callback *)
+Theorem accepted_stop_seen : forall tr1 id tr2 e tr3,
+  accepts (tr1 ++ TLeafStart id false true :: tr2 ++ TStopReq :: e :: tr3) -> noterm tr1 ->
+  Forall (fun x => x = TSkip) tr2 -> e = TLeafStopSeen id.
+Proof.
+  intros tr1 id tr2 e tr3 Hacc Hnt Hsk.
+  destruct (accepts_split _ _ _ Hacc) as (m1 & m2 & Hr & Hs).
+  destruct (flags_run _ _ _ Hr eq_refl Hnt) as (Hd & _ & _).
+  destruct Hacc as [mf Hacc]. rewrite mon_run_app, Hr in Hacc. cbn [mon_run] in Hacc. rewrite Hs in Hacc.
+  unfold mon_step in Hs. rewrite Hd in Hs. destruct (m_expect m1); [discriminate|].
+  destruct (m_root m1) eqn:Hroot; [discriminate|]. destruct (m_wait m1); [discriminate|].
+  destruct (Bool.eqb false (true && m_stopped m1)) eqn:E; [|discriminate].
+  apply Bool.eqb_prop in E. simpl in E. inversion Hs; subst m2. clear Hs.
+  set (mw := set_wait m1 (Some (id, true)) None) in *.
+  assert (Hskip : forall l, Forall (fun x => x = TSkip) l -> forall rest, mon_run mw (l ++ rest) = mon_run mw rest).
+  { induction 1; simpl; auto. subst x. unfold mon_step at 1. unfold mw at 1 2. simpl. rewrite Hd. exact IHForall. }
+  rewrite (Hskip _ Hsk) in Hacc. cbn [mon_run] in Hacc.
+  unfold mon_step at 1 in Hacc. unfold mw in Hacc. simpl in Hacc. rewrite Hd, <- E in Hacc.
+  destruct e; simpl in Hacc; unfold mon_step in Hacc; simpl in Hacc; try discriminate.
+  destruct (Nat.eqb id id0) eqn:E2; [|discriminate]. apply Nat.eqb_eq in E2. subst. reflexivity.
+Qed.
+
+(* state level: after a stop request, the leaf the innermost task awaits has seen it (a plain awaitable
+   cannot; a stop-reactive leaf is not pending any more) *)
+Theorem stop_reaches_current_await : forall body ps script id kd seen stack,
+  let rs := fold_left run_ev script (run_start body ps) in
+  r_stopped rs = true -> r_cfg rs = GSusp (SLeaf id kd seen) stack ->
+  (kd = LPlain /\ seen = true) \/ kd = LAw.
+Proof.
+  intros body ps script id kd seen stack rs Hst Hcfg.
+  destruct (fold_inv script _ (run_start_inv body ps)) as (m & _ & Ha & _).
+  fold rs in Ha. rewrite Hcfg, Hst in Ha. simpl in Ha. destruct Ha as [_ Hseen].
+  destruct kd; simpl in Hseen; auto.
+  destruct Hseen; discriminate.
+Qed.
+
+Theorem accepted_frames_at_most_once : forall tr, accepts tr -> noterm tr ->
+  forall n, destroyed n tr <= created n tr /\ created n tr <= 1.
+Proof.
+  intros tr [m Hr] Hnt n.
+  pose proof (GI_run _ _ _ _ GI_init Hr) as (_ & HL & HG & HN). simpl in HL, HG, HN.
+  destruct (in_dec Nat.eq_dec n (map l_n (m_live m))) as [Hin|Hnin].
+  - apply in_map_iff in Hin. destruct Hin as (s & <- & Hin).
+    destruct (HL s Hin) as [_ (_ & _ & _ & I4 & I5 & _)]. simpl in *. lia.
+  - destruct (Nat.lt_ge_cases n (m_next m)) as [Hlt|Hge].
+    + destruct (HG n Hlt Hnin) as (_ & _ & G3 & G4 & _). simpl in *. lia.
+    + destruct (HN n Hge) as (_ & _ & _ & _ & _ & R6 & R7). simpl in *. lia.
+Qed.
+
+(* ---- the same for the model's traces ------------------------------------------------------------- *)
+Lemma monitor_accepts : forall tr, monitor tr = true -> accepts tr.
+Proof. unfold monitor, accepts; intros. destruct (mon_run m0 tr); [eauto|discriminate]. Qed.
+
+Lemma model_accepts : forall body ps script, accepts (r_tr (exec body ps script)).
+Proof. intros. apply monitor_accepts. apply exec_monitored. Qed.
+
+Lemma noterm_prefix : forall tr1 tr2, noterm (tr1 ++ tr2) -> noterm tr1.
+Proof. unfold noterm; intros. intros Hin. apply H. apply in_or_app. auto. Qed.
+
+Theorem cleanups_lifo_once_before_parent : forall body ps script,
+  let tr := r_tr (exec body ps script) in
+  noterm tr ->
+  (* at the end of a completed run *)
+  ((exists o, In (TRoot o) tr) -> forall n, runs n tr = rev (regs n tr) /\ ends n tr = runs n tr) /\
+  (* before the root receiver is completed *)
+  (forall tr1 o tr2, tr = tr1 ++ TRoot o :: tr2 -> forall n, runs n tr1 = rev (regs n tr1) /\ ends n tr1 = runs n tr1) /\
+  (* before the frame is destroyed by the resumed parent *)
+  (forall tr1 n tr2, tr = tr1 ++ TFrameDestroyed n :: tr2 -> runs n tr1 = rev (regs n tr1) /\ ends n tr1 = runs n tr1) /\
+  (* before anything happens in an awaiting frame n, for every frame k created after n *)
+  (forall tr1 e tr2 n, tr = tr1 ++ e :: tr2 -> ftag e = Some n -> is_frame_ev e = false ->
+     forall k, n < k -> runs k tr1 = rev (regs k tr1) /\ ends k tr1 = runs k tr1).
+Proof.
+  intros body ps script tr Hnt. pose proof (model_accepts body ps script) as Hacc. fold tr in Hacc.
+  split; [|split; [|split]].
+  - intros Hroot n. destruct (accepted_lifecycles tr (exec_monitored body ps script) Hroot Hnt n) as (A & B & _). auto.
+  - intros tr1 o tr2 E n. rewrite E in Hacc, Hnt. eapply accepted_before_root; eauto. eapply noterm_prefix; eauto.
+  - intros tr1 n tr2 E. rewrite E in Hacc, Hnt.
+    destruct (accepted_before_frame_destroyed _ _ _ Hacc (noterm_prefix _ _ Hnt)) as (A & B & _). auto.
+  - intros tr1 e tr2 n E Ht Hf k Hk. rewrite E in Hacc, Hnt.
+    eapply accepted_children_first; eauto. eapply noterm_prefix; eauto.
+Qed.
+
+Theorem locals_destroyed_once : forall body ps script,
+  let tr := r_tr (exec body ps script) in
+  noterm tr ->
+  ((exists o, In (TRoot o) tr) -> forall n i, occ i (dtors_of n tr) = occ i (ctors n tr)) /\
+  (forall tr1 n tr2, tr = tr1 ++ TFrameDestroyed n :: tr2 -> forall i, occ i (dtors_of n tr1) = occ i (ctors n tr1)).
+Proof.
+  intros body ps script tr Hnt. pose proof (model_accepts body ps script) as Hacc. fold tr in Hacc. split.
+  - intros Hroot n. destruct (accepted_lifecycles tr (exec_monitored body ps script) Hroot Hnt n) as (_ & _ & _ & _ & A). auto.
+  - intros tr1 n tr2 E. rewrite E in Hacc, Hnt.
+    destruct (accepted_before_frame_destroyed _ _ _ Hacc (noterm_prefix _ _ Hnt)) as (_ & _ & A & _). auto.
+Qed.
+
+Theorem frames_destroyed_once : forall body ps script,
+  let tr := r_tr (exec body ps script) in
+  noterm tr ->
+  (forall n, destroyed n tr <= created n tr /\ created n tr <= 1) /\
+  ((exists o, In (TRoot o) tr) -> forall n, destroyed n tr = created n tr).
+Proof.
+  intros body ps script tr Hnt. pose proof (model_accepts body ps script) as Hacc. fold tr in Hacc. split.
+  - apply accepted_frames_at_most_once; auto.
+  - intros Hroot n. destruct (accepted_lifecycles tr (exec_monitored body ps script) Hroot Hnt n) as (_ & _ & A & _). auto.
+Qed.
+
+Theorem stop_reaches_leaves : forall body ps script,
+  let tr := r_tr (exec body ps script) in
+  noterm tr ->
+  (forall tr1 id st sp tr2, tr = tr1 ++ TLeafStart id st sp :: tr2 -> st = sp && existsb is_stop tr1) /\
+  (forall tr1 id tr2 e tr3, tr = tr1 ++ TLeafStart id false true :: tr2 ++ TStopReq :: e :: tr3 ->
+     Forall (fun x => x = TSkip) tr2 -> e = TLeafStopSeen id).
+Proof.
+  intros body ps script tr Hnt. pose proof (model_accepts body ps script) as Hacc. fold tr in Hacc. split.
+  - intros tr1 id st sp tr2 E. rewrite E in Hacc, Hnt. eapply accepted_leaf_start; eauto. eapply noterm_prefix; eauto.
+  - intros tr1 id tr2 e tr3 E Hsk. rewrite E in Hacc, Hnt. eapply accepted_stop_seen; eauto. eapply noterm_prefix; eauto.
+Qed.
+
+(* the root receiver is completed at most once *)
+Theorem root_at_most_once : forall body ps script, roots (r_tr (exec body ps script)) <= 1.
+Proof.
+  intros. destruct (model_accepts body ps script) as [m Hm].
+  assert (G : forall tr m1 m2, mon_run m1 tr = Some m2 ->
+              roots tr <= 1 /\ (m_root m1 = true -> m_dead m1 = false -> roots tr = 0) /\
+              (m_dead m1 = true -> roots tr = 0)).
+  { induction tr as [|a tr IH]; intros m1 m2 H; simpl in H.
+    - unfold roots; simpl. repeat split; auto.
+    - destruct (mon_step m1 a) as [mm|] eqn:E; [|discriminate].
+      destruct (IH _ _ H) as (I1 & I2 & I3).
+      unfold roots in *. simpl.
+      destruct (is_root a) eqn:Ea.
+      + destruct a; try discriminate. simpl.
+        unfold mon_step in E.
+        destruct (m_dead m1) eqn:Hd; [discriminate|].
+        destruct (m_expect m1); [discriminate|].
+        destruct (m_root m1) eqn:Hroot; [discriminate|]. destruct (m_wait m1); [discriminate|].
+        match type of E with (if ?c then _ else _) = _ => destruct c end; [|discriminate].
+        inversion E; subst mm. simpl in *. rewrite I2; auto. repeat split; auto; intros; discriminate.
+      + repeat split; auto.
+        * intros Hr Hd.
+          destruct (Bool.bool_dec (m_dead mm) true) as [Hdd|Hdd]; [apply I3; auto|].
+          apply I2; [|destruct (m_dead mm); congruence].
+          assert (Ha : a <> TTerminate).
+          { intros ->. unfold mon_step in E. rewrite Hd in E. destruct (m_expect m1); [discriminate|].
+            inversion E; subst mm. simpl in Hdd. congruence. }
+          destruct (flags_step _ _ _ E Hd) as (_ & F2 & _). auto.
+        * intros Hd. apply I3. unfold mon_step in E. rewrite Hd in E.
+          destruct a; try discriminate; inversion E; subst; auto. }
+  destruct (G _ _ _ Hm) as (G1 & _). exact G1.
+Qed.
